@@ -221,7 +221,7 @@ def inspect_frame(frame: FrameType) -> FrameDetails:
             )
             assert frame.f_lasti == lasti_before
             if _verif.ENABLED:
-                _verif.point("snap_header", frame=frame, stack_len=stack_len)
+                _verif.point("snap_header", frame=frame, stack_len=stack_len, stacktop=stacktop_copy, owner=frame_owner)
 
             # Extract object pointers for it. This is by far the most
             # delicate part of our routine if the frame is executing
